@@ -236,6 +236,373 @@ Example c02_nonvacuous :
   w_mode (c_writer (i_call (fw_flow t))) = SChunked.
 Proof. vm_compute. repeat split; auto; discriminate. Qed.
 
+
+(* ================================================================== additions (review 1) *)
+From Hoot Require Import Httparse Parser.
+From Hoot.proofs Require Import C02_parseback C02_entry.
+From Hoot.proofs Require C05_spec C04_proofs C18_proofs.
+
+(* ------------------------------------------------------------------ exactly one HTTP/1.x request head *)
+
+(** Input assumptions, explicit.  Names: what [http::HeaderName] guarantees AND no double quote (the
+    http crate's name table contains byte 34, which is not a token character; see
+    [c02_parse_back_dquote_refuted]).  Values: what [http::HeaderValue] guarantees.  Target: visible
+    ASCII other than '<' '>'. *)
+Theorem c02_wf_headers_def : forall hs,
+  wf_headers hs <->
+  Forall (fun h => (valid_header_name (fst h) = true /\
+                    forallb (fun b => negb (b =? 34)) (fst h) = true) /\
+                   valid_header_value (snd h) = true) hs.
+Proof. intros hs. reflexivity. Qed.
+
+Theorem c02_target_ok_def : forall a,
+  target_ok a <->
+  forallb (fun b => (33 <=? b) && (b <=? 126) && negb (b =? 60) && negb (b =? 62)) (u_pq (am_eff_uri a)) = true.
+Proof. intros a. reflexivity. Qed.
+
+(** What a reader reports for the head of [a]: the method, the version digit, and the effective
+    headers in order (as the http crate's multimap: names lower-cased, values in order per name), each
+    value without its surrounding optional white space. *)
+Theorem c02_parsed_head_def : forall a,
+  parsed_head a =
+    {| pq_method := method_name (am_method a);
+       pq_version := (match am_version a with V10 => 0 | _ => 1 end);
+       pq_headers := hm_of_list (map (fun h => (fst h, trim_ows (snd h))) (am_headers a)) |} /\
+  (forall v, trim_ows v = rev (drop_while is_sp_tab (rev (drop_while is_sp_tab v)))).
+Proof. intros a. split; reflexivity. Qed.
+
+Theorem c02_trim_ows_id : forall v, C05_spec.no_edge_ws v = true -> trim_ows v = v.
+Proof. exact trim_ows_id. Qed.
+
+(** The rendered head is the rendering, by the independent grammar of proofs/C05_spec.v (RFC 9112:
+    request-line, field-lines, empty line), of a WELL-FORMED request head with this method, target,
+    version and these fields. *)
+Theorem c02_head_grammar : forall a,
+  version_supported (am_version a) = true -> target_ok a -> wf_headers (am_headers a) ->
+  exists h,
+    C05_spec.wf_req_head h /\
+    C05_spec.qh_method h = method_name (am_method a) /\
+    C05_spec.qh_target h = (match u_pq (am_eff_uri a) with [] => [47] | p => p end) /\
+    C05_spec.qh_version h = (match am_version a with V10 => 0 | _ => 1 end) /\
+    C05_spec.headers_of (C05_spec.qh_fields h) = map trim_header (am_headers a) /\
+    List.length (C05_spec.qh_fields h) = List.length (am_headers a) /\
+    C05_spec.render_request_head h = render_request_head a.
+Proof. exact head_grammar. Qed.
+
+(** Parse-back through the crate's own request parser (model: [try_parse_request], C20): the head,
+    followed by anything, is read as exactly this request, and exactly the head is consumed. *)
+Theorem c02_parse_back_amended : forall a rest slots,
+  version_supported (am_version a) = true -> target_ok a -> wf_headers (am_headers a) ->
+  (List.length (am_headers a) <= slots)%nat ->
+  try_parse_request slots (render_request_head a ++ rest) =
+    Ok (Some (len (render_request_head a), parsed_head a)).
+Proof. exact parse_back_amended. Qed.
+
+(** ... for the request as analysis leaves it, from assumptions on the caller's inputs only (what
+    analysis adds is well-formed). *)
+Theorem c02_parse_back : forall c rest slots,
+  call_invalid c = false -> sendable c ->
+  target_ok (c_req c) ->
+  wf_headers (am_added (c_req c)) -> wf_headers (rq_headers (am_request (c_req c))) ->
+  let a := c_req (analysed_call c) in
+  (List.length (am_headers a) <= slots)%nat ->
+  try_parse_request slots (render_request_head a ++ rest) =
+    Ok (Some (len (render_request_head a), parsed_head a)).
+Proof. exact parse_back. Qed.
+
+(** ... and no proper prefix of the head is a complete head. *)
+Theorem c02_parse_back_prefix : forall a p x slots,
+  version_supported (am_version a) = true -> target_ok a -> wf_headers (am_headers a) ->
+  (List.length (am_headers a) <= slots)%nat ->
+  render_request_head a = p ++ x -> x <> [] ->
+  try_parse_request slots p = Ok None.
+Proof. exact parse_back_prefix. Qed.
+
+(** ... for the bytes a flow has actually emitted, over any sequence of buffers, at the moment it
+    reports the head complete. *)
+Theorem c02_parse_back_flow : forall f caps rest slots,
+  fresh_flow f -> call_invalid (i_call f) = false -> sendable (i_call f) ->
+  target_ok (c_req (i_call f)) ->
+  wf_headers (am_added (c_req (i_call f))) ->
+  wf_headers (rq_headers (am_request (c_req (i_call f)))) ->
+  let a := c_req (analysed_call (i_call f)) in
+  let t := fwrun f caps in
+  (List.length (am_headers a) <= slots)%nat ->
+  send_request_can_proceed (fw_flow t) = Ok true ->
+  fw_out t = render_request_head a /\
+  try_parse_request slots (fw_out t ++ rest) = Ok (Some (len (fw_out t), parsed_head a)).
+Proof. exact parse_back_flow. Qed.
+
+(** The request line through the parser's sub-parsers: method, request-target, version come back
+    (the target is not part of what [try_parse_request] returns). *)
+Theorem c02_request_line_parses : forall a rest,
+  version_supported (am_version a) = true -> target_ok a ->
+  exists r1 r2,
+    parse_method (prelude_line a ++ rest) = Done (method_name (am_method a)) r1 /\
+    parse_uri r1 = Done (match u_pq (am_eff_uri a) with [] => [47] | p => p end) r2 /\
+    parse_version r2 = Done (match am_version a with V10 => 0 | _ => 1 end) (CRLF ++ rest).
+Proof. exact request_line_parses. Qed.
+
+(** FINDING (statement false without [no_dquote]): [header] accepts a field name containing a double
+    quote (http 1.1.0 [HEADER_CHARS] has an entry for byte 34); the name is emitted verbatim; the
+    result is not an HTTP/1.x head (field-name = token, RFC 9110 5.6.2) and the crate's own request
+    parser rejects it. *)
+Definition dq_flow : inner :=
+  match flow_new ex_req with
+  | Ok f => match prepare_header f [97; 34; 98] (s2b "v") with Ok f' => f' | _ => f end
+  | _ => ex_flow
+  end.
+
+Example c02_parse_back_dquote_refuted :
+  (exists f0, flow_new ex_req = Ok f0 /\ prepare_header f0 [97; 34; 98] (s2b "v") = Ok dq_flow) /\
+  fresh_flow dq_flow /\ call_invalid (i_call dq_flow) = false /\ sendable (i_call dq_flow) /\
+  let a := c_req (analysed_call (i_call dq_flow)) in
+  let t := fwrun dq_flow [1000] in
+  send_request_can_proceed (fw_flow t) = Ok true /\ fw_out t = render_request_head a /\
+  nth 1 (head_lines a) [] = [97; 34; 98] ++ s2b ": v" ++ CRLF /\
+  try_parse_request 100 (fw_out t) = Err HttpParseFail.
+Proof. split; [eexists; split; vm_compute; reflexivity|]. vm_compute. repeat split; auto; discriminate. Qed.
+
+(* ------------------------------------------------------------------ Host, case made explicit *)
+
+(** [hosts] (used by [c02_host_once]) compares names byte for byte with "host".  The model's input
+    convention -- original names are lower case, as [http::HeaderMap] stores them; [header] lower-cases
+    what it stores -- as an explicit hypothesis, and the count under case-insensitive comparison. *)
+Theorem c02_hosts_ci_def : forall a,
+  hosts_ci a = map snd (filter (fun h => beq_bytes (lower (fst h)) (s2b "host")) (am_headers a)).
+Proof. reflexivity. Qed.
+
+Theorem c02_host_once_ci : forall c,
+  call_invalid c = false -> u_auth (am_eff_uri (c_req c)) <> [] ->
+  lower_names (am_added (c_req c)) -> lower_names (rq_headers (am_request (c_req c))) ->
+  exists v, hosts_ci (c_req (analysed_call c)) = [v] /\
+            (hosts_ci (c_req c) = [] -> v = uri_host (am_eff_uri (c_req c))) /\
+            (hosts_ci (c_req c) <> [] -> hosts_ci (c_req c) = [v]).
+Proof. exact host_once_ci. Qed.
+
+Theorem c02_header_lower : forall f k v f',
+  prepare_header f k v = Ok f' -> lower_names (am_added (c_req (i_call f))) ->
+  lower_names (am_added (c_req (i_call f'))) /\
+  am_req (c_req (i_call f')) = am_req (c_req (i_call f)).
+Proof. exact prepare_header_lower. Qed.
+
+(** The hypothesis is needed: an original field named "Host" (impossible for an [http::Request], whose
+    map holds lower-case names) is not recognised, and two Host lines go out. *)
+Definition upper_host_req : request :=
+  {| rq_method := GET; rq_version := V11;
+     rq_uri := {| u_scheme := s2b "http"; u_auth := s2b "a.test"; u_pq := s2b "/" |};
+     rq_headers := [(s2b "Host", s2b "b.test")] |}.
+
+Example c02_host_upper_refuted :
+  exists f, flow_new upper_host_req = Ok f /\ call_invalid (i_call f) = false /\
+    hosts (c_req (analysed_call (i_call f))) = [s2b "a.test"] /\
+    hosts_ci (c_req (analysed_call (i_call f))) = [s2b "a.test"; s2b "b.test"].
+Proof. eexists. split; [vm_compute; reflexivity|]. vm_compute. auto. Qed.
+
+(* ------------------------------------------------------------------ from the request to the body phase *)
+
+(** What Prepare establishes ([prepared], proofs/C02_entry.v): a fresh flow; either the method decides
+    (body intended iff the method takes one, with-body call expecting chunked iff so) or
+    [send_body_despite_method] switched a body-less method to a with-body call with the body check
+    skipped. *)
+Theorem c02_prepared_def : forall f,
+  prepared f <->
+  (fresh_flow f /\
+   let need := need_request_body (am_method (c_req (i_call f))) in
+   ((c_skip (i_call f) = false /\ i_should_send_body f = need /\
+     c_writer (i_call f) = (if need then new_chunked else new_none) /\
+     i_holder f = (if need then HWithBody else HWithoutBody))
+    \/
+    (c_skip (i_call f) = true /\ i_should_send_body f = true /\
+     c_writer (i_call f) = new_chunked /\ i_holder f = HWithBody))).
+Proof. intros f. reflexivity. Qed.
+
+Theorem c02_prepared_reachable :
+  (forall r f, flow_new r = Ok f -> prepared f) /\
+  (forall f k v f', prepared f -> prepare_header f k v = Ok f' -> prepared f') /\
+  (forall f f', prepared f -> send_body_despite_method f = Ok f' -> prepared f') /\
+  (forall f p f1 g, as_new_flow f p = Ok (f1, Some g) -> prepared g).
+Proof.
+  split; [exact flow_new_prepared|]. split; [exact prepare_header_prepared|].
+  split; [exact despite_prepared|exact as_new_flow_prepared].
+Qed.
+
+(** Head complete, over any sequence of buffers: the flow is the flow it was with the call replaced by
+    the analysed call in phase Body -- in particular the writer it holds in SendBody is the one of
+    [c02_framing], and the request it holds is the one whose head went out. *)
+Theorem c02_head_done_state : forall f caps,
+  fresh_flow f -> call_invalid (i_call f) = false -> sendable (i_call f) ->
+  let f' := fw_flow (fwrun f caps) in
+  send_request_can_proceed f' = Ok true ->
+  f' = set_call f (set_phase (analysed_call (i_call f)) PBody).
+Proof. exact head_done_state. Qed.
+
+(** "When a body follows": for an accepted request the flow intends to send a body iff the writer
+    chosen by analysis has one (iff a framing header is among the effective headers, [c02_framing]),
+    and it holds a with-body call exactly then. *)
+Theorem c02_body_follows : forall f,
+  prepared f -> call_invalid (i_call f) = false ->
+  has_body (c_writer (analysed_call (i_call f))) = i_should_send_body f /\
+  (i_should_send_body f = true -> i_holder f = HWithBody) /\
+  (i_should_send_body f = false -> i_holder f = HWithoutBody).
+Proof. exact body_follows. Qed.
+
+(** The writer in SendBody, read off the effective headers that went out: the no-body writer, the
+    fresh Content-Length writer for n, the fresh chunked writer. *)
+Theorem c02_entry_modes : forall f,
+  prepared f -> call_invalid (i_call f) = false ->
+  let a' := c_req (analysed_call (i_call f)) in
+  let w' := c_writer (analysed_call (i_call f)) in
+  (w' = new_none <-> cls a' = [] /\ has_chunked_te a' = false) /\
+  (forall n, w' = new_sized n <->
+             has_chunked_te a' = false /\
+             exists v, cls a' = [v] /\ is_nonempty v = true /\ forallb is_digit v = true /\
+                       dec_value v = n) /\
+  (w' = new_chunked <-> has_chunked_te a' = true).
+Proof. exact entry_modes. Qed.
+
+(** Advancing from the completed head: with a body to send, to Await100 or SendBody with the very
+    same flow (and Await100 hands the same flow to SendBody); without, to RecvResponse, the writer
+    being the finished no-body writer. *)
+Theorem c02_proceed_to_body : forall f,
+  i_should_send_body f = true -> i_holder f = HWithBody ->
+  let f' := set_call f (set_phase (analysed_call (i_call f)) PBody) in
+  send_request_proceed f' = Ok (Some (if i_await_100 f then TAwait100 else TSendBody, f')) /\
+  await_100_proceed f' = Ok (TSendBody, f').
+Proof. exact proceed_to_body. Qed.
+
+Theorem c02_proceed_no_body : forall f,
+  prepared f -> call_invalid (i_call f) = false -> i_should_send_body f = false ->
+  let f' := set_call f (set_phase (analysed_call (i_call f)) PBody) in
+  c_writer (i_call f') = new_none /\
+  send_request_proceed f' =
+    Ok (Some (TRecvResponse, set_call_holder f' (set_phase (i_call f') PRecvResponse) HRecvResponse)).
+Proof. exact proceed_no_body. Qed.
+
+(** The two entry points used by C04 and C03. *)
+Theorem c02_sized_entry : forall f caps n,
+  prepared f -> call_invalid (i_call f) = false -> sendable (i_call f) ->
+  let a' := c_req (analysed_call (i_call f)) in
+  let f' := fw_flow (fwrun f caps) in
+  send_request_can_proceed f' = Ok true ->
+  has_chunked_te a' = false ->
+  (exists v, cls a' = [v] /\ is_nonempty v = true /\ forallb is_digit v = true /\ dec_value v = n) ->
+  c_req (i_call f') = a' /\ i_holder f' = HWithBody /\ i_should_send_body f' = true /\
+  C04_proofs.sized_body (i_call f') n false /\
+  send_request_proceed f' = Ok (Some (if i_await_100 f then TAwait100 else TSendBody, f')) /\
+  await_100_proceed f' = Ok (TSendBody, f').
+Proof. exact c04_entry_lemma. Qed.
+
+Theorem c02_chunked_entry : forall f caps,
+  prepared f -> call_invalid (i_call f) = false -> sendable (i_call f) ->
+  let a' := c_req (analysed_call (i_call f)) in
+  let f' := fw_flow (fwrun f caps) in
+  send_request_can_proceed f' = Ok true ->
+  has_chunked_te a' = true ->
+  c_req (i_call f') = a' /\ i_holder f' = HWithBody /\ i_should_send_body f' = true /\
+  C18_proofs.chunked_body (i_call f') false /\
+  send_request_proceed f' = Ok (Some (if i_await_100 f then TAwait100 else TSendBody, f')) /\
+  await_100_proceed f' = Ok (TSendBody, f').
+Proof. exact c03_entry_lemma. Qed.
+
+(** Chunked: analysis adds no Content-Length; in particular none goes out unless the caller put one. *)
+Theorem c02_chunked_no_cl : forall c,
+  call_invalid c = false -> has_chunked_te (c_req (analysed_call c)) = true ->
+  cls (c_req (analysed_call c)) = cls (c_req c) /\
+  (cls (c_req c) = [] -> cls (c_req (analysed_call c)) = []).
+Proof. intros c Hi Hc. rewrite (chunked_cls c Hi Hc). auto. Qed.
+
+(** [Call::<WithBody>::write] in the head phases, ANY input: the input is ignored (nothing of it is
+    consumed) and the head writer runs. *)
+Theorem c02_call_with_body_step_any : forall c input cap,
+  is_prelude (c_phase c) = true ->
+  call_write_body c input cap =
+    match call_write_nobody c cap with
+    | Ok (c', o) => Ok (c', 0, o)
+    | Err e => Err e
+    | Panic s => Panic s
+    end.
+Proof. exact write_body_prelude_any. Qed.
+
+(* ------------------------------------------------------------------ examples, states reached by running the model *)
+
+(** [ex_flow] (above): POST, one added header, an original value with a trailing HTAB.  All input
+    assumptions hold; the emitted bytes parse back (the HTAB is optional white space to a reader);
+    a proper prefix does not; the flow then enters SendBody with the fresh chunked writer. *)
+Example c02_parse_back_nonvacuous :
+  prepared ex_flow /\ target_ok (c_req (i_call ex_flow)) /\
+  wf_headers (am_added (c_req (i_call ex_flow))) /\
+  wf_headers (rq_headers (am_request (c_req (i_call ex_flow)))) /\
+  lower_names (am_added (c_req (i_call ex_flow))) /\
+  lower_names (rq_headers (am_request (c_req (i_call ex_flow)))) /\
+  let a := c_req (analysed_call (i_call ex_flow)) in
+  let t := fwrun ex_flow [3; 20; 5; 43; 1000] in
+  send_request_can_proceed (fw_flow t) = Ok true /\
+  try_parse_request 100 (fw_out t ++ [1; 2; 3]) = Ok (Some (len (fw_out t), parsed_head a)) /\
+  len (fw_out t) = 96 /\
+  pq_headers (parsed_head a) =
+    [(s2b "cookie", [s2b "k=v"]); (s2b "host", [s2b "a.test"]);
+     (s2b "transfer-encoding", [s2b "chunked"]); (s2b "accept", [s2b "*/*"]); (s2b "x-a", [[255]])] /\
+  try_parse_request 100 (take 95 (fw_out t)) = Ok None /\
+  hosts_ci a = [s2b "a.test"] /\
+  fw_flow t = set_call ex_flow (set_phase (analysed_call (i_call ex_flow)) PBody) /\
+  c_writer (i_call (fw_flow t)) = new_chunked /\
+  send_request_proceed (fw_flow t) = Ok (Some (TSendBody, fw_flow t)) /\
+  (* non-empty input while the head is being written: ignored *)
+  call_write_body (i_call ex_flow) [7; 7; 7] 20 =
+    match call_write_nobody (i_call ex_flow) 20 with Ok (c', o) => Ok (c', 0, o) | Err e => Err e | Panic s => Panic s end.
+Proof.
+  split; [vm_compute; auto 10|]. split; [reflexivity|].
+  split; [repeat constructor|]. split; [repeat constructor|].
+  split; [repeat constructor|]. split; [repeat constructor|].
+  vm_compute. repeat split.
+Qed.
+
+(** GET made to carry a body by [send_body_despite_method], with a caller-supplied Content-Length:
+    the state in SendBody is the fresh sized writer for that length; and a plain GET goes on to
+    RecvResponse with the no-body writer. *)
+Definition get_req : request :=
+  {| rq_method := GET; rq_version := V11;
+     rq_uri := {| u_scheme := s2b "http"; u_auth := s2b "a.test"; u_pq := s2b "/x?y" |};
+     rq_headers := [(s2b "content-length", s2b "5")] |}.
+Definition get_plain : request :=
+  {| rq_method := GET; rq_version := V10;
+     rq_uri := {| u_scheme := s2b "http"; u_auth := s2b "a.test"; u_pq := s2b "/x?y" |};
+     rq_headers := [] |}.
+Definition despite_flow : inner :=
+  match flow_new get_req with
+  | Ok f => match send_body_despite_method f with Ok f' => f' | _ => f end
+  | _ => ex_flow
+  end.
+Definition plain_flow : inner := match flow_new get_plain with Ok f => f | _ => ex_flow end.
+
+Example c02_entry_nonvacuous :
+  (exists f0, flow_new get_req = Ok f0 /\ send_body_despite_method f0 = Ok despite_flow) /\
+  prepared despite_flow /\ call_invalid (i_call despite_flow) = false /\ sendable (i_call despite_flow) /\
+  (let a' := c_req (analysed_call (i_call despite_flow)) in
+   let g := fw_flow (fwrun despite_flow [10; 18; 40; 21]) in
+   send_request_can_proceed g = Ok true /\
+   has_chunked_te a' = false /\ cls a' = [s2b "5"] /\ dec_value (s2b "5") = 5 /\
+   c_writer (i_call g) = new_sized 5 /\ i_should_send_body g = true /\
+   send_request_proceed g = Ok (Some (TSendBody, g)) /\
+   fw_out (fwrun despite_flow [10; 18; 40; 21]) =
+     s2b "GET /x?y HTTP/1.1" ++ CRLF ++ s2b "host: a.test" ++ CRLF ++ s2b "content-length: 5" ++ CRLF ++ CRLF) /\
+  flow_new get_plain = Ok plain_flow /\ prepared plain_flow /\
+  call_invalid (i_call plain_flow) = false /\ sendable (i_call plain_flow) /\
+  (let g := fw_flow (fwrun plain_flow [100]) in
+   send_request_can_proceed g = Ok true /\ i_should_send_body plain_flow = false /\
+   c_writer (i_call g) = new_none /\
+   exists g', send_request_proceed g = Ok (Some (TRecvResponse, g')) /\ i_holder g' = HRecvResponse).
+Proof.
+  split; [eexists; split; vm_compute; reflexivity|].
+  split; [vm_compute; auto 10|]. split; [reflexivity|].
+  split; [vm_compute; repeat split; auto; discriminate|].
+  split; [vm_compute; repeat split|].
+  split; [reflexivity|]. split; [vm_compute; auto 10|]. split; [reflexivity|].
+  split; [vm_compute; repeat split; auto; discriminate|].
+  vm_compute. repeat split. eexists. split; reflexivity.
+Qed.
+
 Print Assumptions c02_request_line_def.
 Print Assumptions c02_field_line_def.
 Print Assumptions c02_head_lines_def.
@@ -256,3 +623,31 @@ Print Assumptions c02_host_once.
 Print Assumptions c02_framing.
 Print Assumptions c02_body_iff_announced.
 Print Assumptions c02_nonvacuous.
+Print Assumptions c02_wf_headers_def.
+Print Assumptions c02_target_ok_def.
+Print Assumptions c02_parsed_head_def.
+Print Assumptions c02_trim_ows_id.
+Print Assumptions c02_head_grammar.
+Print Assumptions c02_parse_back_amended.
+Print Assumptions c02_parse_back.
+Print Assumptions c02_parse_back_prefix.
+Print Assumptions c02_parse_back_flow.
+Print Assumptions c02_request_line_parses.
+Print Assumptions c02_parse_back_dquote_refuted.
+Print Assumptions c02_hosts_ci_def.
+Print Assumptions c02_host_once_ci.
+Print Assumptions c02_header_lower.
+Print Assumptions c02_host_upper_refuted.
+Print Assumptions c02_prepared_def.
+Print Assumptions c02_prepared_reachable.
+Print Assumptions c02_head_done_state.
+Print Assumptions c02_body_follows.
+Print Assumptions c02_entry_modes.
+Print Assumptions c02_proceed_to_body.
+Print Assumptions c02_proceed_no_body.
+Print Assumptions c02_sized_entry.
+Print Assumptions c02_chunked_entry.
+Print Assumptions c02_chunked_no_cl.
+Print Assumptions c02_call_with_body_step_any.
+Print Assumptions c02_parse_back_nonvacuous.
+Print Assumptions c02_entry_nonvacuous.
